@@ -3,6 +3,7 @@ package extract
 import (
 	"fmt"
 	"go/ast"
+	"go/printer"
 	"go/token"
 	"regexp"
 	"sort"
@@ -353,5 +354,40 @@ func genVersions(repo string) (string, error) {
 		return true
 	})
 	out += fmt.Sprintf("/-- gobin/exe.go `fitInt32`: its integer literals in order (length limit, slice bound, zero, base, bit size). -/\ndef gobinFitLits : List Nat := %s\n", LeanNatList(fitLits))
+
+	// ---- toolkit/types/version.go is a copy of version.go: the ordering methods have the same text
+	rfs, rootF, err := ParseFile(repo, "version.go")
+	if err != nil {
+		return "", err
+	}
+	tfs, tkF, err := ParseFile(repo, "toolkit/types/version.go")
+	if err != nil {
+		return "", err
+	}
+	body := func(fs *token.FileSet, f *ast.File, recv, name string) (string, error) {
+		fd := FuncDecl(f, recv, name)
+		if fd == nil || fd.Body == nil {
+			return "", fmt.Errorf("version copy: (%s).%s not found", recv, name)
+		}
+		var b strings.Builder
+		if err := printer.Fprint(&b, fs, fd.Body); err != nil {
+			return "", err
+		}
+		return b.String(), nil
+	}
+	var same []string
+	for _, m := range [][2]string{{"Version", "Compare"}, {"Range", "Contains"}, {"Version", "String"}} {
+		a, err := body(rfs, rootF, m[0], m[1])
+		if err != nil {
+			return "", err
+		}
+		b, err := body(tfs, tkF, m[0], m[1])
+		if err != nil {
+			return "", err
+		}
+		same = append(same, fmt.Sprintf("(%s, %v)", LeanString(m[0]+"."+m[1]), a == b))
+	}
+	out += "\n/-- version.go against toolkit/types/version.go: is the body of the method the same text? -/\n"
+	out += "def toolkitCopySame : List (String × Bool) := [" + strings.Join(same, ", ") + "]\n"
 	return out + Footer("Versions"), nil
 }
